@@ -86,6 +86,12 @@ package fuse
 //@   call ReadAt#1 assert [window] $p == destination && $off == offset
 //@   call ReadAt#1 bind n1 = $ret0
 //@   call KeyFromString#1 assert [hash-of-entry] $0 == file.hash
+// ... through a reader obtained in this very call for this entry's key (a reader kept from another call may belong
+// to another file)
+//@   call KeyFromString#1 bind k = $ret0
+//@   call GetAt#2 assert [blob-of-the-entry] k_set && $2 == k
+//@   call GetAt#2 bind rd = $ret0
+//@   call ReadAt#2 assert [reader-of-this-blob] rd_set && $0 == rd
 //@   call ReadAt#2 assert [window] $p == destination && $off == offset
 //@   call ReadAt#2 bind n2 = $ret0
 //@   ensures [count-as-read] (n1_set ==> ret0 == n1) && (n2_set ==> ret0 == n2)
@@ -203,6 +209,8 @@ package fuse
 //@   call delete#1 assert [own-listing-of-the-removed-directory] cle_set && $1 == cle.iNode
 //@   ensures [missing-parent-is-enoent] pfound_set && !pfound ==> result == iface(jfuse.ENOENT)
 //@   ensures [missing-name-is-enoent] cfound_set && !cfound ==> result == iface(jfuse.ENOENT)
+// a refused removal (missing parent or name, directory not empty) leaves the name space as it was
+//@   ensures [a-refused-removal-changes-nothing] result != nil ==> fs.lookupTree == old(fs.lookupTree)
 //@   only Delete 1
 //@   only delete 2
 
